@@ -450,8 +450,9 @@ def run_shard(spec):
 
 def check_floors(counters, evaluations, tier):
     msgs = []
-    for key, frac in (('two-or-more-reloads', 0.25), ('revert', 0.07),
-                      ('numprocesses-only-edit', 0.1)):
+    for key, frac in (('two-or-more-reloads', 0.18), ('revert', 0.05),
+                      ('numprocesses-only-edit', 0.06),
+                      ('several-edits-in-one-reload', 0.1)):
         if counters.get(key, 0) < frac * evaluations:
             msgs.append("%s in only %d of %d cases" % (
                 key, counters.get(key, 0), evaluations))
